@@ -1051,9 +1051,9 @@ def replay(path: str) -> int:
 # batch
 
 def main(tier: str) -> int:
-    total = {'quick': 50.0, 'thorough': 900.0}[tier]
+    total = {'quick': 80.0, 'thorough': 900.0}[tier]
     total = float(os.environ.get('VERIF_BUDGET_S', total))
-    parts = [('plain', 'run_plain', 0.35), ('faults', 'run_faults', 0.5), ('captured', 'run_captured', 0.15)]
+    parts = [('plain', 'run_plain', 0.4), ('faults', 'run_faults', 0.52), ('captured', 'run_captured', 0.08)]
     setup_ref_dir()
     from sim import zygote
     zygote.start()
